@@ -481,15 +481,26 @@ SPTAB == [sp1 |-> [a |-> "1"], sp2 |-> [a |-> "2"], sp3 |-> [b |-> "1"]]
 NORD == <<"f", "g", "s", DOCFN, BAKFN, "tags">>       \* sorted() order of every name of the universe
 KORD == <<"k1", "k2", "n", "old">>
 DataSeq == <<[data |-> "A", size |-> 1], [data |-> "B", size |-> 1], [data |-> "CC", size |-> 2]>>
-SlotAt(k) == IF k = 0 THEN NoF ELSE [ex |-> TRUE, r |-> [data |-> DataSeq[((k - 1) % 3) + 1].data, size |-> DataSeq[((k - 1) % 3) + 1].size,
+\* LARGE contents (opaque tokens; the harness expands "@<size>:<v>" to <size> bytes: v = a the base content, f / m / z the base with its
+\* first / middle / last byte changed).  Comparators that read in blocks must see a difference anywhere in a 20 KiB or 70 KiB file.
+BigA == <<[data |-> "@20480:a", size |-> 20480], [data |-> "@71680:a", size |-> 71680]>>
+IsBig(d) == d \in {"@20480:a", "@20480:f", "@20480:m", "@20480:z", "@71680:a", "@71680:f", "@71680:m", "@71680:z"}
+SlotAt(k) == IF k = 0 THEN NoF
+             ELSE IF k > 6 THEN [ex |-> TRUE, r |-> [data |-> BigA[k - 6].data, size |-> BigA[k - 6].size, mtime |-> k - 6]]
+             ELSE [ex |-> TRUE, r |-> [data |-> DataSeq[((k - 1) % 3) + 1].data, size |-> DataSeq[((k - 1) % 3) + 1].size,
                                                       mtime |-> 1 + ((k - 1) \div 3)]]
+NSLOT == 9          \* 0 absent, 1..6 small contents x 2 mtimes, 7..8 large contents
+\* same size (and mtime), other content; for large contents r chooses where the single differing byte is
+Twin(d, r) == CASE d = "A" -> "B" [] d = "B" -> "A"
+                [] d = "@20480:a" -> <<"@20480:f", "@20480:m", "@20480:z">>[(r % 3) + 1]
+                [] d = "@71680:a" -> <<"@71680:f", "@71680:m", "@71680:z">>[(r % 3) + 1]
+                [] OTHER -> d
 \* destination slot related to the source slot: same / absent / same content other mtime / shallow twin / independent
-Twin(d) == CASE d = "A" -> "B" [] d = "B" -> "A" [] OTHER -> "CC"
-RelSlot(s, r, compat) == IF ~compat THEN (IF r % 5 = 0 /\ s.ex THEN [s EXCEPT !.r.data = Twin(s.r.data)] ELSE SlotAt((r \div 5) % 7))
+RelSlot(s, r, compat) == IF ~compat THEN (IF r % 5 = 0 /\ s.ex THEN [s EXCEPT !.r.data = Twin(s.r.data, r \div 5)] ELSE SlotAt((r \div 5) % NSLOT))
                          ELSE CASE r % 5 = 0 -> s [] r % 5 = 1 -> NoF
                                 [] r % 5 = 2 -> (IF s.ex THEN [s EXCEPT !.r.mtime = 3 - s.r.mtime] ELSE s)
-                                [] r % 5 = 3 -> (IF s.ex THEN [s EXCEPT !.r.data = Twin(s.r.data)] ELSE s)   \* same size and mtime, other content
-                                [] OTHER -> SlotAt((r \div 5) % 7)
+                                [] r % 5 = 3 -> (IF s.ex THEN [s EXCEPT !.r.data = Twin(s.r.data, r \div 5)] ELSE s)   \* same size and mtime, other content
+                                [] OTHER -> SlotAt((r \div 5) % NSLOT)
 MkDir(top, sx, sf) == [f |-> [n \in {n \in DOMAIN top : top[n].ex} |-> top[n].r],
                        d |-> IF sx THEN ("s" :> [f |-> IF sf.ex THEN ("f" :> sf.r) ELSE <<>>, d |-> <<>>]) ELSE <<>>]
 TopNames(tags) == IF tags THEN {"f", "g", "tags"} ELSE {"f", "g"}
@@ -509,9 +520,9 @@ MkJob(dir, doc, r) == [sp |-> TRUE, dir |-> dir, doc |-> doc, dex |-> doc # Empt
 BakRec == [data |-> OLDTXT, size |-> Len(OLDTXT), mtime |-> 1]
 AddBak(dir, yes) == IF yes THEN [dir EXCEPT !.f = Over((BAKFN :> BakRec), dir.f)] ELSE dir
 JobPair(v, b, compat, tags, sbak, dbak) ==
-  LET stop == [n \in TopNames(tags) |-> IF n = "tags" /\ v[b + 3] % 2 = 0 THEN NoF ELSE SlotAt(v[b + 1 + Pos(n)] % 7)]
+  LET stop == [n \in TopNames(tags) |-> IF n = "tags" /\ v[b + 3] % 2 = 0 THEN NoF ELSE SlotAt(v[b + 1 + Pos(n)] % NSLOT)]
       dtop == [n \in TopNames(tags) |-> RelSlot(stop[n], v[b + 4 + Pos(n)], compat)]
-      ssf == SlotAt(v[b + 7] % 7)    dsf == RelSlot(ssf, v[b + 8], compat)
+      ssf == SlotAt(v[b + 7] % NSLOT)    dsf == RelSlot(ssf, v[b + 8], compat)
       sa == KVal(v[b + 11])  sb == KVal(v[b + 12])  sn == NVal(v[b + 13] % 9)
       da == RelVal(sa, KVal(v[b + 14]), v[b + 14] \div 8, compat)
       db == RelVal(sb, KVal(v[b + 15]), v[b + 15] \div 8, compat)
@@ -598,6 +609,10 @@ Features(c, x) ==
      \cup T(\E b \in bf : b.s.data # b.d.data /\ b.s.mtime = b.d.mtime /\ b.s.size # b.d.size, "diff-eqtime")
      \cup T(\E b \in bf : b.s.data # b.d.data /\ b.s.mtime = b.d.mtime /\ b.s.size = b.d.size, "diff-shallow-equal")
      \cup T(\E b \in bf : b.s.data # b.d.data /\ Len(b.p) > 1, "diff-nested")
+     \cup T(\E b \in bf : IsBig(b.s.data) /\ b.s.data # b.d.data /\ b.s.size = b.d.size /\ b.s.mtime = b.d.mtime
+                          /\ b.d.data \in {"@20480:f", "@20480:m", "@71680:f", "@71680:m"}, "diff-large-before-last-block")
+     \cup T(\E b \in bf : IsBig(b.s.data) /\ b.s.data # b.d.data /\ b.s.size = b.d.size /\ b.s.mtime = b.d.mtime /\ Len(b.p) > 1, "diff-large-nested")
+     \cup T(\E b \in bf : IsBig(b.s.data) /\ b.s.data # b.d.data /\ b.s.size = b.d.size /\ b.d.data \in {"@20480:z", "@71680:z"}, "diff-large-last-byte")
      \cup T(\E b \in bf : b.s.data = b.d.data /\ b.s.mtime # b.d.mtime, "same-content-other-mtime")
      \cup T(\E b \in bf : ExclPath(b.p, c.o) /\ b.s.data # b.d.data, "diff-excluded")
      \cup T(\E L \in dl : Confl(L.s.m, L.d.m, "") # {}, "doc-conflict")
